@@ -400,7 +400,12 @@ func runC16(c *Ctx) {
 			head := switchHead(d.disp, d.pktVal)
 			body, _, ta := simulate(head, newPtr(rd))
 			isRW := ta != nil && (isPtrToNamed(ta.AssertedType, "sshFxpReadPacket") || isPtrToNamed(ta.AssertedType, "sshFxpWritePacket"))
-			_ = body
+			// the same arm as READ (a case that lists several types has one assertion per type and one body)
+			if rt := p.NamedType(p.Sftp, "sshFxpReadPacket"); rt != nil && body != nil {
+				if bodyR, _, taR := simulate(head, newPtr(rt)); taR != nil && bodyR == body {
+					isRW = true
+				}
+			}
 			c.check(!isRW, "R2", "READDIR goes to the sequential worker", p.Pos(d.disp.Pos()), "not a READ/WRITE for the dispatcher", "READDIR is dispatched to the parallel workers: two batches of one handle can read the same cursor")
 		}
 	}
@@ -535,6 +540,7 @@ func runC16(c *Ctx) {
 	checkOpendirOpensDirectories(c, "R21")
 	// R22 (= C06.R21): entry names go on the wire as the lister gave them
 	checkStringsEncodedVerbatim(c, "R22")
+	checkOnlyEOFEndsListing(c, "R23")
 	// R14 (shared with C05.R3/C10.R5): a lister's end of directory — io.EOF, bare or wrapped the way filelist itself
 	// accepts it — is answered with SSH_FX_EOF, which is what ends the client's loop successfully
 	c.withRule("R14", func() { checkErrorShapes(c, "R3") })
